@@ -8,7 +8,8 @@ LEVEL_TEXT["C20"] = (
     "edges), rises at least with slope 1/ratio, and with zero attack/release coefficients the output level of every non-zero sample is level-shifted by exactly that; "
     "(3) a limiter with zero attack coefficient satisfies level + gs <= T after every step and |out| <= 10^(T/20) for arbitrary signals, release and knee; "
     "(4) one smoothing step multiplies the distance to the target by wA or wR = exp(-ln 9/(fs t)) in [0,1): distance never grows, side preserved, and fs*t steps shrink it by exactly 9; "
-    "(5) Agc: every gain <= exp(maxGain) = 10^(max_gain/20); for constant input power with required gain <= max_gain and step sizes in [0,1/2] the clamp is inactive and the "
+    "(5) Agc: the power estimate handed to log is max(moving average, 0) + eps() >= 2^-52 > 0 for EVERY value of the moving average (also a negative recurrent sum), so the log-gain is a real number "
+    "on every sample of every signal from every state, and every gain is > 0 and <= exp(maxGain) = 10^(max_gain/20) with no assumption on the power estimate; for constant input power with required gain <= max_gain and step sizes in [0,1/2] the clamp is inactive and the "
     "log-level error contracts by |1-2t| per sample; error <= ln 1.01 implies output power within 1 % of the target; a full window of a constant makes the moving average return it exactly. "
     "Tie: the gain computers, mag2db and db2mag are regenerated from the C++ AST each run (Gen/Dynamics); the sample loops, constructors, NoiseGate, MAFilter and Agc are hand-written "
     "models run bit-for-bit against the real objects (framed signals, state across calls, constructor guards at and just outside their bounds). "
@@ -17,8 +18,8 @@ LEVEL_TEXT["C20"] = (
 )
 
 PROPS["C20"] = {
-    "gen": ["Dynamics"],
-    "lean_props": "DspVerif.Props.C20",
+    "gen": ["Dynamics", "StepsBase", "StepsDyn"],
+    "lean_props": ["DspVerif.Props.C20", "DspVerif.Props.C20Gen"],
     "harness": [{"src": "c20.cpp", "cfg": "rel",
                  "tol": {"comp": (1e-11, 1e-290), "lim": (1e-11, 1e-290), "gate": (1e-11, 1e-290),
                          "agcr": (1e-11, 1e-290), "agcc": (1e-11, 1e-290)}}],
@@ -34,6 +35,11 @@ PROPS["C20"] = {
             "3000-sample signals over many parameter sets incl. all corner combinations, step responses for the rise/fall times, "
             "static-curve sweeps -100..+20 dB (0.25 dB, 0.01 dB within 1 dB of both knee edges, +-4 ulp at the edges) over thresholds x ratios 1..50 x knee widths, "
             "AGC targets 0.01..100 x input powers -60..+20 dB x averaging lengths 1..1000, real and complex; "
+            "AGC on arbitrary signals (noise, burst then exact silence longer than the window, silence first, alternating burst/silence, steps, +-0 runs, denormals, clicks, mixtures) real and complex, "
+            "averaging lengths 1, 2, 3, 7, 333, 1000 and random 1..1000, amplitudes over 80 dB at absolute scales 1e-300, 1e-17, 1e-8, 1, 1e8, 1e100, max_gain 0, -0, 1e-17, -20, 60, 400 dB, 1e5-sample and one > 2^17-sample call: "
+            "every gain finite, > 0 and <= max_gain, out = x*gain, constant-envelope tail after the arbitrary part back at the target within 1 %, random framing (empty frames incl.) and copies made mid-stream "
+            "(copy-ctor, copy-assign over a used object, self-assign, vector(n, proto)) bit-identical to the single call; the same signal classes and framing / copy checks for Compressor, Limiter, NoiseGate; "
+            "a subset of the AGC arbitrary-signal cases (short windows every sample, windows 333 / 1000 decimated) goes through CORR; statistics count the samples whose recurrent power sum is below -eps (the class of the repaired NaN defect); "
             "distinct = distinct protocol lines / oracle evaluations (each a different parameter-signal pair); non-trivial = all",
     "trusted_base": TB_COMMON + [
         "Model/Dynamics.lean sample loops, constructors (incl. the explicit t = 0 branch of the smoothing coefficient), NoiseGate, MAFilter, Agc: hand-written, tied by the correspondence run (bit-exact so far)",
